@@ -238,6 +238,10 @@ func setPartitions(tc *mocks.TopicConfig, def int32, over map[string]int32) {
 	tc.SetPartitions(b)
 }
 
+// hangs counts the scripts that blocked; after two of them for one mock the remaining scripts of that mock are
+// skipped (a mock that blocks on everything would otherwise cost 5 s per script).
+var hangs int
+
 // watchdog runs f and gives up after a few seconds: nothing the harness does may block.
 func watchdog(f func()) bool {
 	done := make(chan struct{})
@@ -249,6 +253,7 @@ func watchdog(f func()) bool {
 	case <-done:
 		return true
 	case <-time.After(5 * time.Second):
+		hangs++
 		return false
 	}
 }
